@@ -13,4 +13,10 @@ CHECKS = {
              "The model is compared bit-for-bit with the real PhaseUnwrapper on generated sequences every run.",
         note=COMMON_NOTE + "Theorems assume |bias| <= half a quantum after bit drop (proved for the Abaco parameter sets by evaluation in the kernel).",
     ),
+    "C14": dict(
+        text="Round-trip theorems for all records: decoding the model's encoding of messageRecords/messageSummaries at the offsets of "
+             "doc/BINARY_FORMATS.md recovers every field (36/48-byte headers, payload length, channel prefix). The model encoder is compared "
+             "byte-for-byte with the real builders and the real bytes are decoded by the same doc-derived decoder on every run.",
+        note=COMMON_NOTE + "Floats are opaque bit patterns; float64->float32 narrowing of summary values is Go's and not modelled.",
+    ),
 }
